@@ -267,6 +267,232 @@ def mgmtOf : List Ev → List Op
   | .op o :: rest => o :: mgmtOf rest
   | _ :: rest => mgmtOf rest
 
+/-! ### stored hashes with their parameters (`hash.go`: `HashOpts`, `computeBcrypt/Argon2/SHA256`, `verifyBcrypt/Argon2/SHA256`)
+
+A stored row is `<scheme>:<parameters>:<salt>:<key>` where `key = KDF_scheme(parameters, salt, password)`:
+bcrypt `$2a$<cost>$<salt><key>`, argon2 `<time>:<memory>:<threads>:<salt>:<key>` (argon2id, 64 bytes), sha256 `<salt>:<key>`.
+The key derivation functions stay symbolic: the key is represented by the inputs it was derived from (`KdfIn`), and two
+derivations give the same key iff ALL their inputs agree (`sameKey`: collision freedom in every input, for bcrypt modulo
+its 72-byte key rule).  What is mirrored is which inputs `HashCompute` uses (the `HashOpts` of the call, a fresh salt)
+and which inputs `HashVerify` uses: every one of them is read from the stored row, none from the options of the
+running process or from its environment (`procs` = `runtime.GOMAXPROCS(0)` is an argument of `hashVerify` only so
+that this can be stated). -/
+
+/-- `pass_table.HashOpts`. -/
+structure HashOpts where
+  bcryptCost : Nat := 4
+  argonTime : Nat := 1
+  argonMemory : Nat := 8
+  argonThreads : Nat := 1
+deriving DecidableEq, Repr
+
+/-- the parameters written into the hash string: bcrypt `[cost]`, argon2 `[time, memory, threads]`, sha256 `[]`. -/
+abbrev Params := List Nat
+
+/-- the inputs of one key derivation. -/
+structure KdfIn where
+  params : Params
+  salt : List Nat
+  pw : Pw
+deriving DecidableEq, Repr
+
+/-- two key derivations under scheme `s` give the same key. -/
+def sameKey (s : Scheme) (a b : KdfIn) : Bool :=
+  a.params == b.params && a.salt == b.salt && pwEq s a.pw b.pw
+
+/-- a stored row; its key is `KDF_scheme(params, salt, pw)`. -/
+structure Stored where
+  scheme : Scheme
+  params : Params
+  salt : List Nat
+  pw : Pw
+deriving DecidableEq, Repr
+
+/-- the derivation the stored key came from. -/
+def Stored.keyOf (st : Stored) : KdfIn := ⟨st.params, st.salt, st.pw⟩
+
+inductive HashRes
+  | ok (st : Stored)
+  | err        -- HashCompute returns an error
+  | panic      -- argon2.IDKey panics ("number of rounds too small" / "parallelism degree too low")
+deriving DecidableEq, Repr
+
+/-- `bcrypt.newFromPassword`: a cost below `MinCost` (4) becomes `DefaultCost` (10). -/
+def bcryptEffCost (cost : Nat) : Nat := if cost < 4 then 10 else cost
+
+/-- `HashCompute[s](opts, p)` with the salt drawn by the call. -/
+def hashCompute (s : Scheme) (o : HashOpts) (salt : List Nat) (p : Pw) : HashRes :=
+  match s with
+  | .bcrypt =>
+    if p.length > 72 then .err                       -- bcrypt.ErrPasswordTooLong
+    else if bcryptEffCost o.bcryptCost > 31 then .err  -- bcrypt.InvalidCostError
+    else .ok ⟨.bcrypt, [bcryptEffCost o.bcryptCost], salt, p⟩
+  | .argon2 =>
+    if o.argonTime = 0 ∨ o.argonThreads = 0 then .panic
+    else .ok ⟨.argon2, [o.argonTime, o.argonMemory, o.argonThreads], salt, p⟩
+  | .sha256 => .ok ⟨.sha256, [], salt, p⟩
+
+/-- `HashVerify[st.scheme](p, row) == nil` in a process with `runtime.GOMAXPROCS(0) = procs`: the key is derived again
+from the supplied password with the parameters and the salt READ FROM THE ROW and compared with the stored key. -/
+def hashVerify (_procs : Nat) (p : Pw) (st : Stored) : Bool :=
+  sameKey st.scheme ⟨st.params, st.salt, p⟩ st.keyOf
+
+/-- the credentials table with full rows. -/
+abbrev CTbl := Name → Option Stored
+
+def CTbl.empty : CTbl := fun _ => none
+def CTbl.set (t : CTbl) (k : Name) (v : Stored) : CTbl := fun k' => if k' = k then some v else t k'
+def CTbl.del (t : CTbl) (k : Name) : CTbl := fun k' => if k' = k then none else t k'
+
+/-- what the abstract table remembers of a row. -/
+def Stored.abs (st : Stored) : Scheme × Pw := (st.scheme, st.pw)
+def CTbl.abs (t : CTbl) : Tbl := fun k => (t k).map Stored.abs
+
+inductive COut
+  | out (o : Out)
+  | panic
+deriving DecidableEq, Repr
+
+/-- operations with everything that determines the stored row. -/
+inductive COp
+  | create (u : Name) (p : Pw) (s : Option Scheme) (o : HashOpts) (salt : List Nat)   -- CreateUserHash(u, p, s, o)
+  | setPw (u : Name) (p : Pw) (salt : List Nat)                                        -- SetUserPassword: bcrypt, DefaultCost
+  | put (u : Name) (p : Pw) (s : Scheme) (o : HashOpts) (salt : List Nat)
+      -- a row computed by another implementation of the documented format is written for account `u` (SetKey)
+  | delete (u : Name)
+  | plain (authzid u : Name) (p : Pw)
+  | login (u : Name) (p : Pw)
+  | direct (u : Name) (p : Pw)
+deriving Repr
+
+/-- `pass_table.Auth.AuthPlain` on full rows. -/
+def ctableAuthPlain (c : Cfg) (procs : Nat) (t : CTbl) (u : Name) (p : Pw) : Bool :=
+  match c.norm u with
+  | none => false
+  | some k =>
+    match t k with
+    | none => false
+    | some st => hashVerify procs p st
+
+def csaslAuthPlain (c : Cfg) (procs : Nat) (t : CTbl) (u : Name) (p : Pw) : Bool :=
+  match usernameForAuth c u with
+  | none => false
+  | some m => ctableAuthPlain c procs t m p
+
+def cplain (c : Cfg) (procs : Nat) (t : CTbl) (authzid u : Name) (p : Pw) : AuthRes :=
+  let identity := if authzid = [] then u else authzid
+  if identity ≠ u then .fail
+  else if csaslAuthPlain c procs t u p then .ok identity else .fail
+
+def clogin (c : Cfg) (procs : Nat) (t : CTbl) (u : Name) (p : Pw) : AuthRes :=
+  if !c.loginEnabled then .unsupported
+  else if csaslAuthPlain c procs t u p then .ok u else .fail
+
+def cstep (c : Cfg) (procs : Nat) (t : CTbl) : COp → CTbl × COut
+  | .create u p s o salt =>
+    match s with
+    | none => (t, .out (.mgmt .errAlgo))
+    | some s =>
+      match c.norm u with
+      | none => (t, .out (.mgmt .errName))
+      | some k =>
+        match t k with
+        | some _ => (t, .out (.mgmt .errExists))
+        | none =>
+          match hashCompute s o salt p with
+          | .ok st => (t.set k st, .out (.mgmt .ok))
+          | .err => (t, .out (.mgmt .errHash))
+          | .panic => (t, .panic)
+  | .setPw u p salt =>
+    match c.norm u with
+    | none => (t, .out (.mgmt .errName))
+    | some k =>
+      match hashCompute .bcrypt { bcryptCost := 10 } salt p with
+      | .ok st => (t.set k st, .out (.mgmt .ok))
+      | _ => (t, .out (.mgmt .errHash))
+  | .put u p s o salt =>
+    match hashCompute s o salt p with
+    | .ok st =>
+      match c.norm u with
+      | none => (t, .out (.mgmt .errName))
+      | some k => (t.set k st, .out (.mgmt .ok))
+    | .err => (t, .out (.mgmt .errHash))
+    | .panic => (t, .panic)
+  | .delete u =>
+    match c.norm u with
+    | none => (t, .out (.mgmt .errName))
+    | some k => (t.del k, .out (.mgmt .ok))
+  | .plain a u p => (t, .out (.auth (cplain c procs t a u p)))
+  | .login u p => (t, .out (.auth (clogin c procs t u p)))
+  | .direct u p => (t, .out (.direct (ctableAuthPlain c procs t u p)))
+
+/-- the abstract operations a concrete one stands for, as far as the table is concerned (a panicking or refused
+`HashCompute` writes nothing; a row written over whatever was there is a deletion followed by a creation). -/
+def COp.forget : COp → List Op
+  | .create u p s o salt =>
+    match s with
+    | none => [.create u p none]
+    | some s =>
+      match hashCompute s o salt p with
+      | .ok _ => [.create u p (some s)]
+      | _ => []
+  | .setPw u p _ => [.setPw u p]
+  | .put u p s o salt =>
+    match hashCompute s o salt p with
+    | .ok _ => [.delete u, .create u p (some s)]
+    | _ => []
+  | .delete u => [.delete u]
+  | .plain a u p => [.plain a u p]
+  | .login u p => [.login u p]
+  | .direct u p => [.direct u p]
+
+def crun (c : Cfg) (procs : Nat) : CTbl → List COp → List COut
+  | _, [] => []
+  | t, op :: rest => (cstep c procs t op).2 :: crun c procs (cstep c procs t op).1 rest
+
+def ctableAfter (c : Cfg) (procs : Nat) (h : List COp) : CTbl :=
+  h.foldl (fun t op => (cstep c procs t op).1) CTbl.empty
+
+/-! overlapping logins over full rows (same two-step reading as `Ev`) -/
+
+inductive CEv
+  | op (o : COp)
+  | fetch (i : Nat) (o : COp)
+  | finish (i : Nat)
+  | yield
+deriving Repr
+
+inductive CEvOut
+  | out (o : COut)
+  | begun
+  | noLogin
+deriving DecidableEq, Repr
+
+structure CConcState where
+  tbl : CTbl
+  pending : List (Nat × COut) := []
+
+def cpendGet (i : Nat) : List (Nat × COut) → Option COut
+  | [] => none
+  | (j, r) :: rest => if j = i then some r else cpendGet i rest
+
+def cpendDrop (i : Nat) : List (Nat × COut) → List (Nat × COut)
+  | [] => []
+  | (j, r) :: rest => if j = i then cpendDrop i rest else (j, r) :: cpendDrop i rest
+
+def cevStep (c : Cfg) (procs : Nat) (s : CConcState) : CEv → CConcState × CEvOut
+  | .op o => ({ s with tbl := (cstep c procs s.tbl o).1 }, .out (cstep c procs s.tbl o).2)
+  | .fetch i o => ({ s with pending := (i, (cstep c procs s.tbl o).2) :: s.pending }, .begun)
+  | .finish i =>
+    match cpendGet i s.pending with
+    | some r => ({ s with pending := cpendDrop i s.pending }, .out r)
+    | none => (s, .noLogin)
+  | .yield => (s, .begun)
+
+def crunEv (c : Cfg) (procs : Nat) : CConcState → List CEv → List CEvOut
+  | _, [] => []
+  | s, e :: rest => (cevStep c procs s e).2 :: crunEv c procs (cevStep c procs s e).1 rest
+
 /-! ### submission gate: go-smtp `Conn` + maddy `Session` -/
 
 structure Conn where
